@@ -116,7 +116,7 @@ def fixed_point_iteration(
 
         scale = np.maximum(np.abs(iterates[1]), configuration.atol)
         relative_difference = absolute_difference / scale
-        converged[:] = (absolute_difference < configuration.atol) & (
+        converged[...] = (absolute_difference < configuration.atol) & (
             relative_difference < configuration.rtol
         )
 
